@@ -306,3 +306,25 @@ Proof.
     + vm_compute. discriminate.
 Qed.
 Print Assumptions C05_shared_lookup_tables_refuted.
+
+(* 12. Construction copies its input (store model): the value container of a CPD / factor built from a
+       caller's array [src] is a fresh cell with the array's contents, and all five containers are fresh.
+       Hence (a) whatever is later written to the caller's array, or to any object that existed before
+       (e.g. a sibling CPD built earlier from the same buffer), does not change the new object; (b) any
+       in-place operation on the new object leaves the caller's array and every older object unchanged.
+       A sibling built LATER from the same array is covered by instantiating the theorem at the later heap. *)
+Theorem C05_construction_copies_input :
+  forall h src sc sn n2 no,
+    let '(h', o) := construct h src sc sn n2 no in
+    cells h' (o_vals o) = cells h src /\
+    (forall ws, (forall w, In w ws -> fst w < next h) -> obs (apply_writes h' ws) o = obs h' o) /\
+    (forall ws, inplace_on o ws -> forall l, l < next h -> cells (apply_writes h' ws) l = cells h l).
+Proof.
+  intros h src sc sn n2 no. pose proof (construct_spec h src sc sn n2 no) as H.
+  destruct (construct h src sc sn n2 no) as [h' o]. destruct H as [H1 [H2 H3]].
+  split; [exact H1|]. split.
+  - intros ws Hws. apply obs_frame. intros w l Hw Hl E. pose proof (Hws w Hw) as Hlt. destruct (H3 l Hl) as [Hge _]. unfold loc in *. rewrite <- E in Hge. lia.
+  - intros ws Hws l Hl. rewrite apply_writes_frame; [apply H2; exact Hl|].
+    intros w Hw E. destruct (H3 (fst w) (Hws w Hw)) as [H4 _]. unfold loc in *. rewrite E in H4. lia.
+Qed.
+Print Assumptions C05_construction_copies_input.
